@@ -238,6 +238,7 @@ type DAProc struct {
 	Quiescent bool
 	Cursor    uint64
 	Height    uint64
+	RealReqs  int // requests for DA heights that exist
 }
 
 func (n *Node) kickRetriever() {
@@ -342,6 +343,9 @@ func RunDAScenario(t *testing.T, c *Chain, sc DAScenario, tmp string) *DAResult 
 			proc.Quiescent = quiescent && !n.Dead
 			proc.Cursor, proc.Height = n.M.VerifDAHeight(), n.Height()
 			for _, q := range proc.Reqs {
+				if q.H <= da.Max {
+					proc.RealReqs++
+				}
 				if q.Site != "ok" && !(q.Site == "ids" && (q.Class == DAErrNotFound && len(da.Blobs[q.H]) == 0 || q.Class == DAErrFuture && q.H > da.Max)) {
 					res.FaultsServed[q.Site+":"+daErrName[q.Class]]++
 				}
